@@ -154,7 +154,9 @@ Apis(ca) ==
                       "overtag"}   \* the field also carries a tag rule (one that never fires): the rule map replaces it entirely
     [] ca = "var" -> {"canon", "joined", "object"}
     [] ca \in {"map", "mapiface"} -> {"canon", "sliceroot", "mapfn", "object",
-                                      "extrakey", "extrakeys"}   \* the map also holds one / two entries that have no rule at all
+                                      "extrakey", "extrakeys",   \* the map also holds one / two entries that have no rule at all
+                                      "slice2nd"}                \* second element of a slice whose first element holds every ruled
+                                                                 \* key with a non-empty value (elements are judged independently)
     [] ca = "url" -> {"canon", "ptr", "object"}
 
 ReqMarker(q) == IF "requiredC" \in Range(q) THEN "REQMSG" ELSE "it is required"
